@@ -19,7 +19,7 @@ from mc.worlds import kit
 
 LEVEL = "model_checking"
 INTERVALS = {"1min": 1, "2min": 2, "5min": 5, "1h": 60}
-MIXES = ["uni(q0)", "uni+aave", "aave(path)", "squeeth(ne)", "gmx1", "gmx2(mild,small)", "deribit", "deribit+uni", "deribit(many)+uni"]
+MIXES = ["uni(q0)", "uni+aave", "aave(path)", "squeeth(ne)", "gmx1", "gmx2(mild,small)", "deribit", "deribit(cut)", "deribit+uni", "deribit(many)+uni"]
 HOOKS = ["initialize", "before_bar", "trigger", "on_bar", "after_bar"]  # plus "notify" in dedicated two-operation scripts
 
 
@@ -125,6 +125,7 @@ def run_traced(world, script, interval):
 
         def finalize(self):
             ev("finalize")
+            do_ops("finalize", -2, None)  # an operation made when the run is over (closing out, say): recorded, but outside every bar
 
     st = Tracer()
     px = world.frames["prices"]
@@ -157,6 +158,12 @@ def run_traced(world, script, interval):
     error = None
     try:
         run_quiet(act)
+        if any(hook == "rerun" for _, hook, _ in script):
+            # the SAME actuator is run once more (walk-forward testing in chunks): the second run is a run like any other, judged by the same specification
+            trace.clear()
+            outcomes.clear()
+            fired_in_notify.clear()
+            run_quiet(act)
     except Exception as e:  # noqa: BLE001
         error = f"{type(e).__name__}: {e}"[:300]
     return {"trace": trace, "outcomes": outcomes, "error": error, "bars": bars, "act": act, "markets": [m.market_info.name for m in markets], "prices": px}
@@ -294,7 +301,7 @@ def judge(part, mix, interval, script):
         part.count(f"op.{oc[3]}")
     accepted_in_bar = {}
     for oc in o["outcomes"]:
-        if oc[3] == "ok":
+        if oc[3] == "ok" and oc[1] != "finalize":  # what is done in finalize() lies outside every bar
             b = 0 if oc[1] == "initialize" or oc[0] < 0 else oc[0]
             accepted_in_bar[b] = accepted_in_bar.get(b, 0) + 1
     for b, n_ok in accepted_in_bar.items():
@@ -372,6 +379,9 @@ def cases(thorough):
                 for hook in ("on_bar", "after_bar", "trigger"):
                     out.append((mix, interval, [(1, hook, "deribit.deposit[part]")]))
                 out.append((mix, interval, [(0, "on_bar", "deribit.deposit[part]"), (31, "on_bar", "deribit.withdraw[part]")]))
+            if n_raw <= 60 and interval == "1min":
+                out.append((mix, interval, [(-2, "finalize", good[0]), (-2, "rerun", "-")]))
+                out.append((mix, interval, [(0, "on_bar", good[0]), (-2, "finalize", good[-1]), (-2, "rerun", "-")]))
             out.append((mix, interval, [(min(1, n_bars - 1), "on_bar", good[0]), (min(1, n_bars - 1), "notify", good[-1])]))
             out.append((mix, interval, [(0, "after_bar", good[0]), (0, "notify", good[0])]))
             if not thorough:
